@@ -157,7 +157,32 @@ def set_tagged(root: config.Buildable, *, tag: TagType, value: Any) -> None:
     if isinstance(node, config.Buildable):
       for key, tags in node.__argument_tags__.items():
         if any(issubclass(t, tag) for t in tags):
-          setattr(node, key, value)
+          set_argument(node, key, value)
+
+
+def set_argument(
+    buildable: config.Buildable, key: Union[str, int], value: Any
+) -> None:
+  """Sets an argument given its key in `__argument_tags__` / `__arguments__`.
+
+  Positional-only and variadic positional arguments are keyed by their index.
+  """
+  if isinstance(key, int):
+    buildable[key] = value
+  else:
+    setattr(buildable, key, value)
+
+
+def get_argument(
+    buildable: config.Buildable, key: Union[str, int], default: Any
+) -> Any:
+  """Returns an argument (or its default value) given its key."""
+  if isinstance(key, int):
+    try:
+      return buildable[key]
+    except IndexError:
+      return default
+  return getattr(buildable, key, default)
 
 
 def list_tags(
